@@ -9,6 +9,34 @@ NOTE = ("Trusted: Lean 4.33 kernel; axioms propext/Classical.choice/Quot.sound o
 
 # id -> dict(text=, note=, technique=, design=)   (claimed properties)
 CLAIMED = {
+ "C01": dict(
+  text="Lean model of the simplifier as a rule table (Impl/Simp/*: one rule per Simplifier.walk_*, same case order and guards) with a generic assembly theorem simpWith_correct: if every table entry is locally correct (RuleOK: type, value under every well-formed interpretation that evaluates no division by zero, free symbols) then simp preserves type, well-formedness, value and introduces no symbol — simp_type_partial, simp_wf_partial, simp_sound_partial, simp_div0_partial, simp_fv_subset_partial, for every term in the modelled fragment (inFrag; the operator families whose RuleOK proofs are complete — listed by fragment_ops and recorded in the evidence on every run; hence _partial), simp_any_order_partial (holds for every re-ordering of and/or/times results, which covers the implementation's set-iteration / node-id orders), eval_sort (eval is type-sound on all 66 operators). Tied to the code three ways on every run: K1 replays every walk_x(formula, args) call of the real simplifier on the Lean rule with the implementation's own arguments; K2 compares whole-formula results; S checks the property itself on the real simplifier's output with the Lean reference semantics (type, fv, value under sampled interpretations) over a rule-directed stream (every operator x guard-derived shape classes x widths) and a random stream with quantifiers and UF.",
+  note="pow and algebraic constants are outside the semantics (known findings F05a/b). Operators outside inFrag are covered by K1/K2/S only. Arrays: finitely supported interpretations; reals are rationals; Int/Real quantifiers executed over small finite domains (proved for every non-empty domain).",
+  technique="Lean 4 per-rule soundness proofs + generic assembly by structural induction; per-call differential replay; semantic search with Lean evaluator"),
+ "C02": dict(
+  text="Lean theorems about Impl/Model.getValue (= simp after substitution of the assignment, with the documented completion defaults): getValue_sound_partial / noCompletion_sound_partial (a returned constant has the formula's type and is its value under every well-formed interpretation extending the assignment with no division by zero), completion_defaults, fold_complete_partial / rule_folds (every modelled rule maps constant arguments to a constant), for quantifier-free formulas in the modelled simplifier fragment (hence _partial). Tied to the code by comparing EagerModel.get_value / satisfies on the real library with the Lean reference evaluator eval on type-directed random formulas of every sort with total and partial assignments and both completion modes, and EXHAUSTIVELY for every bit-vector operator on every operand value at widths 1-3 (quick) / 1-4 (thorough), plus an end-to-end comparison with Model.getValue (K3, run inside the C01 check).",
+  note="Equality between arrays over a finite index sort is compared in canonical form (Val.normArr). Without completion a partial assignment either raises or is compared against one sampled completion.",
+  technique="Lean 4 proofs on the evaluator model + exhaustive/sampled differential evaluation against the Lean reference semantics"),
+ "C04": dict(
+  text="Lean theorems over EVERY reachable manager state (induction over arbitrary histories of constructor programs, incl. failing ones): table_inj, table_fun, id_eq_iff_struct_eq, create_same_iff_struct (build t1, run any program, build t2: same id iff t1 = t2), recreate_existing, const_spelling / const_spelling_bv / const_spelling_sbv (every numeric spelling with the same denotation yields the same node; Python's cross-type key equality 1 == 1.0 == True == Fraction(1) is modelled explicitly), const_validation_history_independent, accessors_faithful, structure_stable, array_sorted + array_get_correct (binary search = lookup with default under the invariant mkArray establishes), rebuild_id (IdentityDagWalker rebuild creates nothing), dag_owned, normalize_copy_partial (copy into a second manager has the source tree and consists of target nodes; array values excluded: known finding F60). Tied to the code by random two-environment construction histories (all 66 node types, every spelling, replays through alternative routes, normalize in both directions) compared node table by node table with the model, and searched with an independent blueprint term algebra (structure <-> object bijection per environment, accessor faithfulness, copies share nothing).",
+  note="CPython id() is an explicit address parameter of the model; dict lookup on FNodeContent realising content equality relies on FNode.__eq__ = identity / __hash__ = node id (trusted, exercised by K).",
+  technique="Lean 4 invariant proofs over operation histories (hash-consing table) + differential histories"),
+ "C05": dict(
+  text="Lean theorems for all terms, all term-keyed maps and all interpretations: substMG_eq_spec / substMS_eq_spec (the model of MGSubstituter / MSSubstituter equals the independent top-down / bottom-up specification functions), bound_untouched, keys_not_free_untouched, subst_empty; subst_lemma_mg_partial / subst_lemma_ms_partial (eval I (subst s t) = eval (I updated with the replacement values) t under the decidable NoCapture proviso), subst_type_partial, interp_lemma_partial (function interpretations). _partial because array values with assigned pairs are excluded (ArrOK) and the MS lemma needs MSSafe (without it the statement is false of the documented most-specific strategy: known finding F50, witnessed in Lean and on the code). Tied to the code by literal comparison of wire encodings of the real substituters' results with the model (both strategies, both entry points, function interpretations), and searched semantically (value under updated interpretations via the Lean evaluator) and against Python transcriptions of the docstring specifications.",
+  note="The model is the recursive function; that the memoised DAG walk computes it is covered by C14/C20's walker theorems and by K on shared sub-DAGs.",
+  technique="Lean 4 substitution lemma by structural induction + specification equality + differential run"),
+ "C11": dict(
+  text="Lean theorems for every quantifier-free term on which convert answers: cnf_shape, cnf_complete (a satisfying interpretation extended on the definition symbols by k_g := value of g satisfies the CNF and agrees with I on the input's symbols), cnf_sound (any interpretation satisfying the CNF satisfies the input), the same triple for the polarity encoding (polCnf_*), and ack_shape / ack_complete / ack_sound for Ackermannization (functions recovered from the fresh constants) — i.e. exactly the property's model-by-model equisatisfiability, both directions; keys_fresh / consts_fresh discharge freshness for the model of new_fresh_symbol. The simplifier used for negating literals enters as hypotheses SimpSound/SimpSym/SimpShape (what C01 proves). Tied to the code by comparing clause sets as sets of sets after renaming definition variables along the sub-formula map, and searched by ENUMERATING all values of up to 16 auxiliary symbols per sampled interpretation in both directions with the Lean evaluator.",
+  note="Known finding F51 (shape only): the negative literal of a Boolean array read that folds to a non-atom. Formulas with more than 16 auxiliary symbols are counted and skipped by S.",
+  technique="Lean 4 Tseitin/polarity/Ackermann equisatisfiability proofs + exhaustive auxiliary-variable enumeration"),
+ "C12": dict(
+  text="Lean theorems for every well-typed term (none partial): fv_eq_def, coincidence / value_depends_on_reported_fv (the value depends only on the symbols reported free), atoms_eq_def, atoms_theory_term, atoms_determine / atoms_truth_function (for a QF formula the value is a function skelEval of the reported atoms' truth values), qf_iff, types_eq_def / types_nodup / types_order / expand_types_spec, size_*_eq_def for all six measures, operators_order (operator classes regenerated from pysmt/operators.py by tools/gen_operators.py; renumbering breaks the build). Tied to the code by comparing the real oracles with the model as canonical lists, and searched with direct structural definitions plus semantic dependence tests through the Lean evaluator (flip a symbol not reported free; perturb an interpretation while keeping all reported atoms' truth values).",
+  note="get_types is compared as a set (iteration order of an intermediate frozenset is not modelled).",
+  technique="Lean 4 structural-induction proofs (coincidence lemma, atom skeleton) + regenerated operator classes + differential run"),
+ "C13": dict(
+  text="The ordering/selection code of pysmt/logics.py is TRANSLATED to Lean on every run (tools/gen_logics.py: ast translation of Theory.__le__/combine/set_*/copy, Logic.__le__/__lt__/__eq__, most_generic_logic, get_closer_logic into Gen/TheoryOrder.lean; the 79-logic table into Gen/Logics.lean) and the theorems are re-checked against what the code says now: theory_le_refl/trans/antisymm over all 2^12 theories, combine_ub / combine_ub_iff / combine_wf, logic_le_preorder, logic_le_antisymm_mod_name, table_wf / table_no_twins / table_antisymm_mod_name / table_names_unique / detected_logics_are_listed (decide +kernel over the regenerated table), closer_spec / closer_covers / closer_none_iff / closer_total / closer_pysmt_* / closer_smtlib_spec / most_generic_spec for arbitrary supported lists, oracle_wf; detect_covers_partial / detect_logic_covers_partial for the intrinsic features (hand model of TheoryOracle). A differential run validates the translator (all table pairs x six relations, rows of the 4096^2 raw-theory matrix, selection cases, detection on generated formulas); a pure-Python search (works with a broken Lean build) brute-forces the order axioms over all triples, the combine bound, the selection specs and detection against an independent feature extractor.",
+  note="Known finding F45: combine is not an upper bound for constructible but ill-formed theories (difference flag without arithmetic flag); proved exactly by combine_ub_iff. detect_covers for operand-implied features is checked by S, not proved.",
+  technique="Python->Lean translator (regenerated model) + Lean 4 proofs incl. decide +kernel over the regenerated table + differential validation"),
  "C16": dict(
   text="Lean theorems over ALL legal command sequences (induction / simulation, no bound): script_refines_stack and goals_refine (get_last_formula's replay loop with its five parallel structures returns exactly the assertions and goals live under the SMT-LIB assertion-stack spec), strict_ok/strict_live (get_strict_formula), track_refines_stack (IncrementalTrackingSolver's assertion list after every step = live assertions), placement_sufficient + oneshot_restores (is_sat/is_valid/is_unsat/solve-with-assumptions leave the list as found whenever every state-changing entry point clears the pending pop) and placement_table, decided over a table of @clear_pending_pop placements REGENERATED from /repo's solver classes by tools/gen_pendingpop.py on every run (removing a decorator breaks the proof). Tied to the code by a differential run of the Lean models against SmtLibScript / a concrete IncrementalTrackingSolver subclass on all legal sequences up to a length bound plus sampled longer ones, and searched against the spec directly.",
   note="Formulas and goals are opaque ids in the model. Native solver wrappers are covered only through the regenerated decorator-placement table, not executed.",
